@@ -77,6 +77,12 @@ func method(name, verb, route string, prefix string) scen.Method {
 // Cases returns the one-controller product family (used by C08/C11 as the 'layout' family).
 func Cases(tier string) []scen.Case { return productCases(tier) }
 
+// AllCases returns the product and the multi-controller layout families.
+func AllCases(tier string) []scen.Case {
+	cs := productCases(tier)
+	return append(cs, layoutCases(tier, len(cs))...)
+}
+
 func productCases(tier string) []scen.Case {
 	verbs := []string{"GET", "POST", "PUT", "DELETE", "PATCH"}
 	prefixesA := []string{"/§", "§", "/§/", "//§", "/§/a", "/§//a", "/§/{t}"}
